@@ -103,7 +103,9 @@ func expandNamedUUID(column *ColumnSchema, value interface{}, namedUUIDs map[str
 		valType = column.TypeObj.Value.Type
 	}
 
-	if valType == TypeUUID {
+	if column.Type == TypeMap {
+		// keys and values are expanded independently, each according to its
+		// own type (expandNamedUUIDAtomic ignores non-uuid positions)
 		if m, ok := value.(OvsMap); ok {
 			for k, v := range m.GoMap {
 				if newUUID, ok := expandNamedUUIDAtomic(keyType, k, namedUUIDs); ok {
